@@ -113,11 +113,10 @@ def _is_pow2_const(x):
 
 def fl(exact, exact_ok=False):
     """float op result: relative error <= 2^-53 (standard model)."""
-    exact = z3.simplify(exact)
-    if exact_ok or z3.is_rational_value(exact):
+    if exact_ok or z3.is_rational_value(z3.simplify(exact)):
         return SymFloat(exact)
     r = z3.Real(f"fl{next(ENG.fresh)}")
-    c = z3.And(r >= exact * (1 - U), r <= exact * (1 + U), exact >= 0)  # PROBE: nonneg kernel
+    c = z3.And(r >= exact * (1 - U), r <= exact * (1 + U))  # PROBE: plain, assumes exact >= 0
     ENG.pc.append(c); ENG.solver.add(c)
     return SymFloat(r)
 
@@ -142,7 +141,10 @@ class SymNum:
     def __index__(self): raise EngineLimit("concrete int required (__index__)")
     def __truediv__(self, o):
         ex = _real(self) / _real(o)
-        return fl(ex, exact_ok=_is_pow2_const(o) and isinstance(self, SymInt) or _is_pow2_const(o))
+        r = fl(ex, exact_ok=_is_pow2_const(o) and isinstance(self, SymInt) or _is_pow2_const(o))
+        if type(self) is SymInt and type(o) is int and o > 0 and _is_pow2_const(o):
+            r.ratio = (self, o)     # exact integer quotient: keep ceil/floor in integer arithmetic
+        return r
     def __rtruediv__(self, o):
         return fl(_real(o) / _real(self))
 
@@ -184,6 +186,8 @@ class SymFloat(SymNum):
         ENG.pc.append(c); ENG.solver.add(c)
         return SymInt(k)
     def __ceil__(self):
+        if getattr(self, "ratio", None):
+            n, d = self.ratio; return SymInt((n.e + (d - 1)) / d)
         k = z3.Int(f"ceil{next(ENG.fresh)}")
         c = z3.And(z3.ToReal(k) >= self.e, z3.ToReal(k) - 1 < self.e)
         ENG.pc.append(c); ENG.solver.add(c)
